@@ -129,6 +129,16 @@ func vTerminalCase() {
 	// ---- front end
 	lvl := []zapcore.Level{DPanicLevel, PanicLevel, FatalLevel}[vrt.Choice("level", 3)]
 	front := vrt.Choice("front", 9)
+	// the std-log bridge also gets blank messages (log.Println() and friends): what arrives is trimmed
+	stdMsg, wantMsg := "boom", "boom"
+	if front == 8 {
+		switch vrt.Choice("stdmsg", 3) {
+		case 1:
+			stdMsg, wantMsg = "", ""
+		case 2:
+			stdMsg, wantMsg = " \t", ""
+		}
+	}
 	var recovered interface{}
 	returned := false
 	call := func() {
@@ -195,7 +205,7 @@ func vTerminalCase() {
 				vrt.Fail("NewStdLogAt-rejects-level")
 				return
 			}
-			std.Print("boom")
+			std.Print(stdMsg)
 		}
 		returned = true
 	}
@@ -220,7 +230,7 @@ func vTerminalCase() {
 		}
 	}
 	vrt.Tag(fmt.Sprintf("front=%d", front))
-	if recovered != nil && fmt.Sprint(recovered) != "boom" {
+	if recovered != nil && fmt.Sprint(recovered) != wantMsg {
 		vrt.Tag("recovered=" + fmt.Sprint(recovered))
 	}
 	events := vrt.EventsString()
@@ -229,7 +239,7 @@ func vTerminalCase() {
 	vrt.Observe("exited", stub.Exited)
 	switch wantAction {
 	case "panic":
-		vrt.Assert("panic-action-ran", recovered != nil && fmt.Sprint(recovered) == "boom")
+		vrt.Assert("panic-action-ran", recovered != nil && fmt.Sprint(recovered) == wantMsg)
 	case "exit":
 		vrt.Assert("fatal-action-ran", stub.Exited && stub.Code == 1)
 		vrt.Assert("no-panic-instead", recovered == nil)
@@ -297,5 +307,5 @@ func vCount(s, sub string) int {
 	return n
 }
 
-//verif: prop=C06 bounds="one call at DPanic/Panic/Fatal through 9 front ends (Logger methods, Log, Check+Write, Sugared plain/f/w/ln/Logw, std-log bridge) x 8 cores (nop, threshold, arbitrary level set, sampler dropping everything, tee, tee with a branch whose write fails, JSON IO core over a BufferedWriteSyncer whose buffer is larger / smaller than the line) x development on/off x hooks {unset, nil, no-op, Goexit, custom} installed at construction (all cores) or later through WithOptions on an existing, a derived or a sugared logger (threshold core); threshold any int8; process exit observed through zap's own exit stub"
+//verif: prop=C06 bounds="one call at DPanic/Panic/Fatal through 9 front ends (Logger methods, Log, Check+Write, Sugared plain/f/w/ln/Logw, std-log bridge, that one also with an empty and a blank message) x 8 cores (nop, threshold, arbitrary level set, sampler dropping everything, tee, tee with a branch whose write fails, JSON IO core over a BufferedWriteSyncer whose buffer is larger / smaller than the line) x development on/off x hooks {unset, nil, no-op, Goexit, custom} installed at construction (all cores) or later through WithOptions on an existing, a derived or a sugared logger (threshold core); threshold any int8; process exit observed through zap's own exit stub"
 func VC06Terminal() { vTerminalCase() }
